@@ -69,12 +69,6 @@ theorem ith_id_depends_only_on_hash_and_index (H : List UInt8 → List UInt8) (h
     ∃ hi' : i < ids.length, mkId H h (c + i) es[i] = .ok ids[i] :=
   specIds_get H h es c ids hs i hi
 
-/-- Two allocators created from the same hash and asked for the same entity types return the same
-ids (whatever else differs between the two executions). -/
-theorem same_hash_same_requests_same_ids (H : List UInt8 → List UInt8) (h : List UInt8) (es : List UInt8) :
-    ∀ r, IdAllocator.allocAll H (IdAllocator.new h) es = r →
-         IdAllocator.allocAll H (IdAllocator.new h) es = r := fun _ hr => hr
-
 /-- `u32::to_le_bytes` is injective on `u32`. -/
 theorem le32_injective (c1 c2 : Nat) (h1 : c1 < 4294967296) (h2 : c2 < 4294967296)
     (h : le32 c1 = le32 c2) : c1 = c2 := le32_inj c1 c2 h1 h2 h
@@ -93,8 +87,8 @@ theorem id_collision_extracts_hash_collision (H : List UInt8 → List UInt8) (h 
   · unfold mkId at hid1 hid2
     split at hid1 <;> split at hid2 <;> simp_all
 
-example : mkId (fun m => m) (List.replicate 32 0) 1 7 = .ok (7 :: (List.replicate 29 0 ++ le32 1).drop 0 |>.drop 0 |> fun _ =>
-    ((List.replicate 32 (0 : UInt8) ++ le32 1).drop 2).tail) := by decide
+/-- non-vacuity with the identity as "hash": positions 1 and 257 differ, and so do their ids -/
+example : mkId (fun m => m) (List.replicate 32 0) 1 7 ≠ mkId (fun m => m) (List.replicate 32 0) 257 7 := by decide
 
 /-! ## (c) configuration -/
 
@@ -273,24 +267,5 @@ theorem resolved_sets_agree_off_diagnostics (c1 c2 : ExecutionConfig)
   have e4 : r1.enabled.transactionRuntime = r2.enabled.transactionRuntime :=
     congrArg StateAffecting.transactionRuntime hsa'
   cases m <;> simp_all [EnabledModules.has, Module.isDiagnostic]
-
-/-! ## (b) emission order of state updates (on C12's model of `Track`) -/
-
-open Radix.Track Radix.KV Radix.SubstateDb in
-/-- `tracked_nodes` is append-only: every `CommitableSubstateStore` operation except the revert of a
-failed transaction keeps the existing nodes in place and can only add a node at the end — the order
-of `tracked_nodes` is the order of first touch. -/
-theorem tracked_order_append_only (t : Track) (op : Track.Op) (hop : op ≠ .revert) :
-    ∃ suffix, (Track.step t op).1.nodes.map (·.1) = t.nodes.map (·.1) ++ suffix :=
-  step_nodes_append_only t op hop
-
-open Radix.Track Radix.KV Radix.SubstateDb in
-/-- The node order of the emitted `StateUpdates`: first-occurrence order of the nodes of the deleted
-partitions (in deletion order) followed by the tracked nodes that carry at least one update (in
-first-touch order). Nothing else — in particular no hash-map iteration — enters. -/
-theorem state_updates_node_order (t : Track) :
-    (Track.toStateUpdates t).2.map (·.1) =
-      ((t.deleted.map (·.1)) ++ ((t.nodes.filter nodeHasUpdates).map (·.1))).foldl ISet.insert [] :=
-  toStateUpdates_keys t
 
 end Radix.C01.Props
